@@ -181,29 +181,35 @@ type vkC09Pub struct {
 	Name string
 	Keys []string
 	Sigs []string
+	// Rider: a DNSKEY record of this form appended to the answer OUTSIDE the signed RRset — owner ".",
+	// but class CH ("ch") or, in class IN, owned by another name ("owner"): the response as a whole is
+	// then not an authenticated DNSKEY set.
+	Rider     string
+	RiderKind string
 }
 
 // simplest first
 var vkC09PubsAll = []vkC09Pub{
-	{"honest", []string{"K1"}, []string{"K1"}},                          // K1 only, signed by K1
-	{"intro", []string{"K1", "K2"}, []string{"K1"}},                     // K2 introduced, signed by K1
-	{"cosign", []string{"K1", "K2"}, []string{"K1", "K2"}},              // both sign
-	{"k2signs", []string{"K1", "K2"}, []string{"K2"}},                   // signed by K2 only
-	{"k2only", []string{"K2"}, []string{"K2"}},                          // K1 removed, K2 signs
-	{"k1gone", []string{"K2"}, []string{"K1"}},                          // K1 removed from the set it still signs
-	{"revoke", []string{"K1r", "K2"}, []string{"K1r", "K2"}},            // K1 revoked, signed by revoked K1 and K2
-	{"revself", []string{"K1r"}, []string{"K1r"}},                       // K1 revoked, only its self-signature
-	{"revintro", []string{"K1r", "K2"}, []string{"K1r"}},                // revocation-only authenticated set that also carries K2
-	{"revnoself", []string{"K1r", "K2"}, []string{"K2"}},                // REVOKE bit without the self-signature
-	{"collide", []string{"K1", "K3"}, []string{"K1"}},                   // K3 has K1's key tag
-	{"collrev", []string{"K1", "K3r"}, []string{"K1", "K3r"}},           // self-signed revoked K3 has revoked-K1's key tag
-	{"collrevonly", []string{"K3r"}, []string{"K3r"}},                   // the same, nothing else
-	{"forged", []string{"K1", "U"}, []string{"U"}},                      // signed by an unknown key
-	{"unsigned", []string{"K1", "K2"}, nil},                             // no RRSIG at all
-	{"revk2", []string{"K1", "K2r"}, []string{"K1", "K2r"}},             // K2 revoked (self-signed), K1 signs too
-	{"k2k3", []string{"K2", "K3"}, []string{"K2"}},                      // K1 gone, its tag reused by K3
-	{"revshadow", []string{"K1r", "K3r", "K2"}, []string{"K1r", "K2"}},  // revoked K1 and a colliding revoked K3 in one set
-	{"revshadow2", []string{"K3r", "K1r", "K2"}, []string{"K1r", "K2"}}, // the same in the other record order
+	{Name: "honest", Keys: []string{"K1"}, Sigs: []string{"K1"}},                          // K1 only, signed by K1
+	{Name: "intro", Keys: []string{"K1", "K2"}, Sigs: []string{"K1"}},                     // K2 introduced, signed by K1
+	{Name: "cosign", Keys: []string{"K1", "K2"}, Sigs: []string{"K1", "K2"}},              // both sign
+	{Name: "k2signs", Keys: []string{"K1", "K2"}, Sigs: []string{"K2"}},                   // signed by K2 only
+	{Name: "k2only", Keys: []string{"K2"}, Sigs: []string{"K2"}},                          // K1 removed, K2 signs
+	{Name: "k1gone", Keys: []string{"K2"}, Sigs: []string{"K1"}},                          // K1 removed from the set it still signs
+	{Name: "revoke", Keys: []string{"K1r", "K2"}, Sigs: []string{"K1r", "K2"}},            // K1 revoked, signed by revoked K1 and K2
+	{Name: "revself", Keys: []string{"K1r"}, Sigs: []string{"K1r"}},                       // K1 revoked, only its self-signature
+	{Name: "revintro", Keys: []string{"K1r", "K2"}, Sigs: []string{"K1r"}},                // revocation-only authenticated set that also carries K2
+	{Name: "revnoself", Keys: []string{"K1r", "K2"}, Sigs: []string{"K2"}},                // REVOKE bit without the self-signature
+	{Name: "collide", Keys: []string{"K1", "K3"}, Sigs: []string{"K1"}},                   // K3 has K1's key tag
+	{Name: "collrev", Keys: []string{"K1", "K3r"}, Sigs: []string{"K1", "K3r"}},           // self-signed revoked K3 has revoked-K1's key tag
+	{Name: "collrevonly", Keys: []string{"K3r"}, Sigs: []string{"K3r"}},                   // the same, nothing else
+	{Name: "forged", Keys: []string{"K1", "U"}, Sigs: []string{"U"}},                      // signed by an unknown key
+	{Name: "unsigned", Keys: []string{"K1", "K2"}, Sigs: nil},                             // no RRSIG at all
+	{Name: "revk2", Keys: []string{"K1", "K2r"}, Sigs: []string{"K1", "K2r"}},             // K2 revoked (self-signed), K1 signs too
+	{Name: "k2k3", Keys: []string{"K2", "K3"}, Sigs: []string{"K2"}},                      // K1 gone, its tag reused by K3
+	{Name: "revshadow", Keys: []string{"K1r", "K3r", "K2"}, Sigs: []string{"K1r", "K2"}},  // revoked K1 and a colliding revoked K3 in one set
+	{Name: "revshadow2", Keys: []string{"K3r", "K1r", "K2"}, Sigs: []string{"K1r", "K2"}}, // the same in the other record order
+	{Name: "riderch", Keys: []string{"K1"}, Sigs: []string{"K1"}, Rider: "K2", RiderKind: "ch"},       // genuine signed set + an unsigned ". CH DNSKEY" carrying K2
 }
 
 func vkC09PubByName(n string) *vkC09Pub {
@@ -300,6 +306,15 @@ func (s *vkC09Root) handle(w dns.ResponseWriter, req *dns.Msg) {
 	m.Answer = u.rrset(p)
 	for _, f := range p.Sigs {
 		m.Answer = append(m.Answer, u.sign(p, f))
+	}
+	if p.Rider != "" {
+		rider := dns.Copy(u.form(p.Rider))
+		if p.RiderKind == "ch" {
+			rider.Header().Class = dns.ClassCHAOS
+		} else {
+			rider.Header().Name = "rider."
+		}
+		m.Answer = append(m.Answer, rider)
 	}
 	_ = w.WriteMsg(m)
 }
